@@ -81,7 +81,7 @@ func expandGlobs(names []string, cs *Contracts) []string {
 		pre := strings.TrimSuffix(n, "*")
 		for _, k := range cs.Order {
 			c := cs.Funcs[k]
-			if c != nil && !c.Trusted && !c.Dyn && strings.HasPrefix(k, pre) {
+			if c != nil && (!c.Trusted || cs.Body[k] != nil) && !c.Dyn && strings.HasPrefix(k, pre) {
 				out = append(out, k)
 			}
 		}
